@@ -39,6 +39,56 @@ def render(parts):
     return out
 
 
+MUTABLE_CALLS = {'dict', 'list', 'set', 'deque', 'defaultdict', 'OrderedDict', 'bytearray', 'Queue'}
+
+
+def class_level_mutables(fn, cls):
+    """A mutable object bound in a class body is shared by all instances (all associations); mutating it
+    through `self` in a method is a write to shared state unless the method's class rebinds the name on the
+    instance in __init__."""
+    shared = {}
+    for item in cls.body:
+        if isinstance(item, (ast.Assign, ast.AnnAssign)) and item.value is not None:
+            v = item.value
+            mutable = isinstance(v, (ast.Dict, ast.List, ast.Set, ast.ListComp, ast.DictComp, ast.SetComp)) or (
+                isinstance(v, ast.Call) and ((isinstance(v.func, ast.Name) and v.func.id in MUTABLE_CALLS) or
+                                             (isinstance(v.func, ast.Attribute) and v.func.attr in MUTABLE_CALLS)))
+            if mutable:
+                for t in (item.targets if isinstance(item, ast.Assign) else [item.target]):
+                    if isinstance(t, ast.Name):
+                        shared[t.id] = item.lineno
+    if not shared:
+        return []
+    rebound = set()
+    for item in cls.body:
+        if isinstance(item, ast.FunctionDef) and item.name == '__init__':
+            for n in ast.walk(item):
+                if isinstance(n, ast.Assign):
+                    for t in n.targets:
+                        if isinstance(t, ast.Attribute) and isinstance(t.value, ast.Name) and t.value.id == 'self':
+                            rebound.add(t.attr)
+    out = []
+    for item in cls.body:
+        if not isinstance(item, ast.FunctionDef):
+            continue
+        for n in ast.walk(item):
+            hit = None
+            if isinstance(n, (ast.Assign, ast.AugAssign, ast.Delete)):
+                targets = n.targets if isinstance(n, (ast.Assign, ast.Delete)) else [n.target]
+                for t in targets:
+                    if isinstance(t, ast.Subscript):
+                        parts = chain(t)
+                        if len(parts) >= 3 and parts[0] == 'self' and parts[1] in shared and parts[1] not in rebound:
+                            hit = render(parts)
+            if isinstance(n, ast.Call) and isinstance(n.func, ast.Attribute) and n.func.attr in MUTATORS:
+                parts = chain(n.func.value)
+                if len(parts) >= 2 and parts[0] == 'self' and parts[1] in shared and parts[1] not in rebound:
+                    hit = render(parts) + '.%s()' % n.func.attr
+            if hit:
+                out.append((fn, item.name, hit + ' (class-level mutable, line %d)' % shared[parts[1]], n.lineno))
+    return out
+
+
 def shared_writes(repo):
     found = []
     pkg = os.path.join(repo, 'pynetdicom2')
@@ -134,6 +184,7 @@ def shared_writes(repo):
                 for item in node.body:
                     if isinstance(item, ast.FunctionDef):
                         visit_func(item, node.name)
+                found.extend(class_level_mutables(fn, node))
     out = []
     for fn, func, target, line in found:
         if (fn, func, target) in ALLOWED:
